@@ -16,6 +16,7 @@ pub struct EnvironmentView {
     pub process_router: Vec<(ProcessId, WorkerId)>,
     pub pending_awaits: Vec<PendingAwaitView>,
     pub resource_ownership: Vec<(ResourceId, ProcessId)>,
+    pub terminated: Vec<ProcessId>,
     pub next_process_id: ProcessId,
     pub next_request_id: u64,
     /// (request id, answered?)
@@ -59,6 +60,8 @@ impl<E: Effect> Environment<E> {
         let mut resource_ownership: Vec<_> =
             self.resource_ownership.iter().map(|(k, v)| (*k, *v)).collect();
         resource_ownership.sort_unstable();
+        let mut terminated: Vec<_> = self.terminated.iter().copied().collect();
+        terminated.sort_unstable();
         let mut pending_requests: Vec<_> = self
             .pending_requests
             .iter()
@@ -69,6 +72,7 @@ impl<E: Effect> Environment<E> {
             process_router,
             pending_awaits,
             resource_ownership,
+            terminated,
             next_process_id: self.next_process_id,
             next_request_id: self.next_request_id,
             pending_requests,
